@@ -140,6 +140,7 @@ type patternHole struct {
 	tag, g, m, d, salt, lim int64
 	eofStyle                bool
 	closes                  int
+	zero                    bool // contents, seeks and Truncate are delegated to the real pool.ZeroHoleSource
 }
 
 func (h *patternHole) isData(i int64) bool { return i < h.lim && (i/h.g)%h.m < h.d }
@@ -162,8 +163,15 @@ func (h *patternHole) ReadAt(p []byte, off int64) (int, error) {
 		n = min(pl.hrN, len(p))
 		pl.delivered = true
 	}
-	for i := 0; i < n; i++ {
-		p[i] = h.byteAt(off + int64(i))
+	if h.zero {
+		for i := range p[:n] {
+			p[i] = 0xEE
+		}
+		pool.ZeroHoleSource.ReadAt(p[:n], off)
+	} else {
+		for i := 0; i < n; i++ {
+			p[i] = h.byteAt(off + int64(i))
+		}
 	}
 	if faulty {
 		if pl.hrShort {
@@ -181,6 +189,9 @@ func (h *patternHole) GetNextRegionOffset(off int64, regionType filesystem.Regio
 	if pl.hsK == k {
 		pl.delivered = true
 		return 0, errHole
+	}
+	if h.zero {
+		return pool.ZeroHoleSource.GetNextRegionOffset(off, regionType)
 	}
 	switch regionType {
 	case filesystem.Data:
@@ -211,6 +222,9 @@ func (h *patternHole) Truncate(size int64) error {
 	if h.e.plan.ht {
 		h.e.plan.delivered = true
 		return errHole
+	}
+	if h.zero {
+		return pool.ZeroHoleSource.Truncate(size)
 	}
 	if size < h.lim {
 		h.lim = size
